@@ -67,7 +67,7 @@ func runOptionsStream(c *rig.Ctx, corpus []string) {
 	}
 	defer w.close()
 	r := rand.New(rand.NewSource(c.Seed*7919 + 13))
-	c.SetExtra("options_stream_rule", "options: the chain built with every shape-changing flag (tracing, access log, load-pressure GOAWAY with thresholds 1 and chance 0.5, secure serving) and the feature gate Tracing=true on every cluster: the corpus, every termination row twice, forward cases (every third over HTTP/2) and concurrent bursts (half of the clients over HTTP/2), two thirds of the requests with the client header x-debug-trace-log: 1; same model, same judges")
+	c.SetExtra("options_stream_rule", "options: the chain built with every shape-changing flag (tracing, access log, load-pressure GOAWAY with thresholds 1 and chance 0.2, secure serving) and the feature gate Tracing=true on every cluster: the corpus, every termination row twice, forward cases (every third over HTTP/2) and concurrent bursts (half of the clients over HTTP/2), two thirds of the requests with the client header x-debug-trace-log: 1; same model, same judges")
 	// the corpus (cases of the default world, sent through this one)
 	for _, f := range corpus {
 		b, _ := os.ReadFile(f)
